@@ -142,3 +142,96 @@ func TestC07(t *testing.T) {
 		})
 	}
 }
+
+func init() {
+	for _, n := range Names {
+		pbt.Register("C08", "hostile-"+n, RunC08)
+		pbt.Register("C08", "growth-"+n, RunC08)
+		pbt.Register("C08", "tiny-"+n, RunC08)
+	}
+}
+
+func TestC08(t *testing.T) {
+	maxOps, maxCount := 30, 300
+	if pbt.Tier() == "thorough" {
+		maxOps, maxCount = 60, 3000
+	}
+	for _, name := range formatsUnderTest() {
+		f := Formats[name]
+		t.Run(name, func(t *testing.T) {
+			rapid.Check(t, func(rt *rapid.T) {
+				c := genHostileCase(rt, f, maxOps, maxCount)
+				st, err := runC08(c)
+				if st == nil {
+					st = &hostileStats{}
+				}
+				nt := (st.Outputs >= 1 && st.AfterOutput >= 10) || st.LongRun >= 1000
+				pbt.Count("C08", "packets", int64(st.Packets))
+				pbt.Count("C08", "outputs_checked_for_stability", int64(st.Outputs))
+				pbt.Check(rt, "C08", "hostile-"+name, c, nt, []string{"format:" + name, "mode:stab"}, func() error { return err })
+			})
+		})
+	}
+}
+
+// TestC08Growth: long single-kind runs, retained heap measured after GC.
+func TestC08Growth(t *testing.T) {
+	packets := 40000
+	if pbt.Tier() == "thorough" {
+		packets = 120000
+	}
+	for _, name := range formatsUnderTest() {
+		f := Formats[name]
+		t.Run(name, func(t *testing.T) {
+			rapid.Check(t, func(rt *rapid.T) {
+				c := genGrowthCase(rt, f, packets)
+				st, err := runC08(c)
+				if st == nil {
+					st = &hostileStats{}
+				}
+				pbt.Count("C08", "packets", int64(st.Packets))
+				pbt.Check(rt, "C08", "growth-"+name, c, st.LongRun >= 1000,
+					[]string{"format:" + name, "mode:mem", "grow:" + c.Ops[len(c.Ops)-1].Kind}, func() error { return err })
+			})
+		})
+	}
+}
+
+// tinyFragmentsAffected: decoders in the class of known finding C08-tiny-fragments.
+var tinyFragmentsAffected = map[string]bool{
+	"h264": true, "h265": true, "av1": true, "vp8": true, "vp9": true,
+	"fragmented": true, "mpeg1video": true, "mjpeg": true, "ac3": true,
+}
+
+// TestC08Tiny: endless runs of empty or 1-byte fragments (the size caps never
+// trigger on them); retained heap measured after GC.
+func TestC08Tiny(t *testing.T) {
+	packets := 1500000
+	for _, name := range formatsUnderTest() {
+		f := Formats[name]
+		if !f.Stateful {
+			continue
+		}
+		t.Run(name, func(t *testing.T) {
+			rapid.Check(t, func(rt *rapid.T) {
+				if pbt.OpenFinding("C08-tiny-fragments") && tinyFragmentsAffected[name] {
+					pbt.Excluded("C08", "C08-tiny-fragments")
+					return
+				}
+				c := HostileCase{Cfg: genCfg(rt, f), Mode: "mem"}
+				size := rapid.IntRange(0, 1).Draw(rt, "tinysize")
+				c.Ops = []HOp{
+					{Kind: "start", Count: 1, Size: 100, Fill: 3, NewTS: true},
+					{Kind: "mid", Count: packets, Size: size, Fill: 9},
+				}
+				st, err := runC08(c)
+				if st == nil {
+					st = &hostileStats{}
+				}
+				pbt.Count("C08", "packets", int64(st.Packets))
+				pbt.Check(rt, "C08", "tiny-"+name, c, st.LongRun >= 1000,
+					[]string{"format:" + name, "mode:mem", "grow:tiny"}, func() error { return err })
+			})
+		})
+	}
+}
